@@ -59,6 +59,18 @@ def baseline() -> T.Dict[str, T.Dict[str, str]]:
     return _BASELINE
 
 
+_BASELINE_SIGS: T.Optional[T.Dict[str, T.Dict[str, T.List[str]]]] = None
+
+
+def baseline_signatures() -> T.Dict[str, T.Dict[str, T.List[str]]]:
+    """Parameter names of the pinned tree's functions (sa/baseline_signatures.json, written by tools/make_baseline.py)."""
+    global _BASELINE_SIGS
+    if _BASELINE_SIGS is None:
+        with open(os.path.join(os.path.dirname(os.path.abspath(__file__)), "baseline_signatures.json")) as fobj:
+            _BASELINE_SIGS = json.load(fobj)
+    return _BASELINE_SIGS
+
+
 # --------------------------------------------------------------------------------------------- helpers
 def _stored_names(node: ast.AST) -> T.Set[str]:
     out: T.Set[str] = set()
@@ -892,10 +904,20 @@ def undo_renames(trees: T.Dict[str, ast.Module]) -> T.List[str]:
             by_hash: T.Dict[str, T.List[str]] = {}
             for q, fd in fresh.items():
                 by_hash.setdefault(body_hash(fd), []).append(q)
+            def _sig(fd_: ast.AST) -> T.Tuple[str, ...]:
+                a_ = fd_.args
+                return tuple(x.arg for x in a_.posonlyargs + a_.args + a_.kwonlyargs)
+            base_sigs = baseline_signatures().get(m, {})
             for old, h in sorted(vanished.items()):
                 cands = [q for q in by_hash.get(h, []) if q.rpartition(".")[0] == old.rpartition(".")[0]]
                 if len(cands) != 1 or [o for o, h2 in vanished.items() if h2 == h] != [old]:
-                    continue
+                    # renamed AND edited: the one vanished function and the one new function of this module (class) that
+                    # have the same parameter list (two or more parameters)
+                    sig = tuple(base_sigs.get(old, ()))
+                    cands = [q for q, fd in fresh.items() if q.rpartition(".")[0] == old.rpartition(".")[0] and _sig(fd) == sig]
+                    same_sig_vanished = [o for o in vanished if tuple(base_sigs.get(o, ())) == sig]
+                    if len(sig) < 2 or len(cands) != 1 or same_sig_vanished != [old]:
+                        continue
                 new = cands[0]
                 new_name, old_name = new.rpartition(".")[2], old.rpartition(".")[2]
                 is_method = "." in new
@@ -928,12 +950,186 @@ def undo_renames(trees: T.Dict[str, ast.Module]) -> T.List[str]:
     return done
 
 
+def _is_ref(e: ast.AST) -> bool:
+    """A reference to a module / function / attribute chain, or a tuple of such (no calls, no computations)."""
+    if isinstance(e, ast.Name):
+        return True
+    if isinstance(e, ast.Attribute):
+        return _is_ref(e.value)
+    if isinstance(e, ast.Tuple):
+        return all(_is_ref(x) for x in e.elts)
+    return False
+
+
+def expand_table_dispatch(tree: ast.Module, unchanged: T.Optional[T.Set[int]] = None) -> int:
+    """De-virtualise a local lookup table of references:
+
+        impl = {True: (v2version, v2rewrite), False: (v1version, v1rewrite)}
+        ...
+        ver, rew = impl[bool(cond)]
+        <rest of the block>
+
+    becomes `if cond: <rest with ver, rew := v2version, v2rewrite> else: <rest with ...>`, so that calls through the table
+    resolve to their targets.  Only when the table is a single-assignment local dict literal with constant keys and
+    reference values, the bound names are assigned nowhere else and are not used outside the rest of the block."""
+    import copy
+    count = 0
+    for fd in [n for n in ast.walk(tree) if isinstance(n, (ast.FunctionDef, ast.AsyncFunctionDef))]:
+        if unchanged and id(fd) in unchanged:
+            continue          # a function of the pinned tree, untouched: the rules were confirmed against this very shape
+        tables: T.Dict[str, ast.Dict] = {}
+        stores: T.Dict[str, int] = {}
+        for n in ast.walk(fd):
+            if isinstance(n, ast.Name) and isinstance(n.ctx, ast.Store):
+                stores[n.id] = stores.get(n.id, 0) + 1
+        for n in ast.walk(fd):
+            tg = val = None
+            if isinstance(n, ast.Assign) and len(n.targets) == 1:
+                tg, val = n.targets[0], n.value
+            elif isinstance(n, ast.AnnAssign) and n.value is not None:
+                tg, val = n.target, n.value
+            if isinstance(tg, ast.Name) and isinstance(val, ast.Dict) and val.keys and all(isinstance(k, ast.Constant) for k in val.keys) \
+                    and all(_is_ref(v) for v in val.values) and stores.get(tg.id) == 1:
+                tables[tg.id] = val
+        if not tables and not any(isinstance(n, ast.Assign) and isinstance(n.value, ast.IfExp) and _is_ref(n.value.body) and _is_ref(n.value.orelse) for n in ast.walk(fd)):
+            continue
+
+        def visit_block(stmts: T.List[ast.stmt]) -> None:
+            nonlocal count
+            i = 0
+            while i < len(stmts):
+                st = stmts[i]
+                hit = None
+                if isinstance(st, ast.Assign) and len(st.targets) == 1 and isinstance(st.value, ast.Subscript) and isinstance(st.value.value, ast.Name) \
+                        and st.value.value.id in tables and not isinstance(st.value.slice, ast.Slice):
+                    tgt = st.targets[0]
+                    names = [tgt.id] if isinstance(tgt, ast.Name) else ([e.id for e in tgt.elts] if isinstance(tgt, ast.Tuple) and all(isinstance(e, ast.Name) for e in tgt.elts) else None)
+                    table = tables[st.value.value.id]
+                    if names and all(stores.get(n_) == 1 for n_ in names) and \
+                            all((isinstance(v, ast.Tuple) and len(v.elts) == len(names)) if isinstance(tgt, ast.Tuple) else True for v in table.values):
+                        rest = stmts[i + 1:]
+                        used_in_rest = sum(1 for r_ in rest for x in ast.walk(r_) if isinstance(x, ast.Name) and x.id in names)
+                        used_total = sum(1 for x in ast.walk(fd) if isinstance(x, ast.Name) and x.id in names and isinstance(x.ctx, ast.Load))
+                        if used_in_rest == used_total and rest:
+                            hit = (names, table, st.value.slice, rest, isinstance(tgt, ast.Tuple))
+                # `impl = A if cond else B` with references A, B, where impl is only called through: the same expansion,
+                # over the shortest run of following statements that holds every use of impl
+                if hit is None and isinstance(st, ast.Assign) and len(st.targets) == 1 and isinstance(st.targets[0], ast.Name) and isinstance(st.value, ast.IfExp) \
+                        and _is_ref(st.value.body) and _is_ref(st.value.orelse) and not isinstance(st.value.body, ast.Tuple) and stores.get(st.targets[0].id) == 1:
+                    nm = st.targets[0].id
+                    uses = [x for x in ast.walk(fd) if isinstance(x, ast.Name) and x.id == nm and isinstance(x.ctx, ast.Load)]
+                    called = [x for x in ast.walk(fd) if (isinstance(x, ast.Call) and ((isinstance(x.func, ast.Name) and x.func.id == nm) or
+                              (isinstance(x.func, ast.Attribute) and isinstance(x.func.value, ast.Name) and x.func.value.id == nm)))]
+                    last = -1
+                    for j, r_ in enumerate(stmts[i + 1:]):
+                        if any(isinstance(x, ast.Name) and x.id == nm for x in ast.walk(r_)):
+                            last = j
+                    in_rest = sum(1 for r_ in stmts[i + 1:i + 2 + last] for x in ast.walk(r_) if isinstance(x, ast.Name) and x.id == nm and isinstance(x.ctx, ast.Load))
+                    if uses and len(called) == len(uses) and last >= 0 and in_rest == len(uses):
+                        fake = ast.Dict(keys=[ast.Constant(value=True), ast.Constant(value=False)], values=[st.value.body, st.value.orelse])
+                        tail = stmts[i + 2 + last:]
+                        del stmts[i + 2 + last:]
+                        hit = ([nm], fake, ast.Call(func=ast.Name(id="bool", ctx=ast.Load()), args=[st.value.test], keywords=[]), stmts[i + 1:], False)
+                        pending_tail = tail
+                    else:
+                        pending_tail = []
+                else:
+                    pending_tail = []
+                if hit is None:
+                    for fld in ("body", "orelse", "finalbody"):
+                        sub = getattr(st, fld, None)
+                        if isinstance(sub, list) and sub and isinstance(sub[0], ast.stmt):
+                            visit_block(sub)
+                    for h in getattr(st, "handlers", []) or []:
+                        visit_block(h.body)
+                    i += 1
+                    continue
+                names, table, key, rest, is_tuple = hit
+                if isinstance(key, ast.Call) and isinstance(key.func, ast.Name) and key.func.id == "bool" and len(key.args) == 1 and not key.keywords:
+                    key = key.args[0]
+                    boolean = True
+                else:
+                    boolean = False
+                keys = [k.value for k in table.keys]
+
+                # locals bound in the duplicated part (and used nowhere else) get one name per branch: single assignment stays
+                rest_ids = {id(x) for r_ in rest for x in ast.walk(r_)}
+                bound_in_rest = {x.id for r_ in rest for x in ast.walk(r_) if isinstance(x, ast.Name) and isinstance(x.ctx, ast.Store)}
+                private = {n_ for n_ in bound_in_rest if not any(isinstance(x, ast.Name) and x.id == n_ and id(x) not in rest_ids for x in ast.walk(fd))}
+                branch_no = [0]
+
+                def branch(val: ast.AST) -> T.List[ast.stmt]:
+                    repl = dict(zip(names, val.elts)) if is_tuple else {names[0]: val}
+                    branch_no[0] += 1
+                    sfx = f"__b{branch_no[0]}"
+
+                    class Sub(ast.NodeTransformer):
+                        def visit_Name(self, node: ast.Name) -> ast.AST:
+                            if node.id in repl and isinstance(node.ctx, ast.Load):
+                                return ast.copy_location(copy.deepcopy(repl[node.id]), node)
+                            if node.id in private:
+                                return ast.copy_location(ast.Name(id=node.id + sfx, ctx=node.ctx), node)
+                            return node
+                    return [ast.fix_missing_locations(Sub().visit(copy.deepcopy(r_))) for r_ in rest]
+                if set(keys) == {True, False} and all(isinstance(k, bool) for k in keys) and boolean:
+                    vt = table.values[keys.index(True)]
+                    vf = table.values[keys.index(False)]
+                    new_if = ast.If(test=key, body=branch(vt), orelse=branch(vf))
+                else:
+                    new_if = None
+                    for k, v in reversed(list(zip(table.keys, table.values))):
+                        test = ast.Compare(left=copy.deepcopy(key), ops=[ast.Eq()], comparators=[copy.deepcopy(k)])
+                        orelse = [new_if] if new_if is not None else [ast.Raise(exc=ast.Call(func=ast.Name(id="KeyError", ctx=ast.Load()), args=[copy.deepcopy(key)], keywords=[]), cause=None)]
+                        new_if = ast.If(test=test, body=branch(v), orelse=orelse)
+                ast.copy_location(new_if, st)
+                ast.fix_missing_locations(new_if)
+                stmts[i:] = [new_if] + pending_tail
+                count += 1
+                visit_block(new_if.body)
+                visit_block(new_if.orelse)
+                if pending_tail:
+                    i += 1
+                    continue
+                return
+        visit_block(fd.body)
+    return count
+
+
+def canonical_dict_calls(tree: ast.Module) -> int:
+    """`dict(a=x, b=y)` (keywords only) is the display `{'a': x, 'b': y}`: same keys, same order, same values."""
+    shadowed = any(isinstance(n, ast.Name) and n.id == "dict" and isinstance(n.ctx, ast.Store) for n in ast.walk(tree)) or \
+        any(isinstance(n, ast.arg) and n.arg == "dict" for n in ast.walk(tree))
+    if shadowed:
+        return 0
+    count = [0]
+
+    class Tr(ast.NodeTransformer):
+        def visit_Call(self, node: ast.Call) -> ast.AST:
+            self.generic_visit(node)
+            if isinstance(node.func, ast.Name) and node.func.id == "dict" and not node.args and node.keywords and all(k.arg is not None for k in node.keywords):
+                count[0] += 1
+                return ast.copy_location(ast.Dict(keys=[ast.copy_location(ast.Constant(value=k.arg), k.value) for k in node.keywords], values=[k.value for k in node.keywords]), node)
+            return node
+    Tr().visit(tree)
+    if count[0]:
+        ast.fix_missing_locations(tree)
+    return count[0]
+
+
 def normalise_program(trees: T.Dict[str, ast.Module]) -> T.Dict[str, int]:
     """Expand the new helpers of every module (also across sibling modules); returns expanded call sites per module."""
     out = {m: 0 for m in trees}
     if os.environ.get("VERIF_NO_NORMALISE"):
         return out
     LAST_RUN["renames_undone"] = undo_renames(trees)
+    LAST_RUN["dict_calls"] = sum(canonical_dict_calls(t) for m, t in trees.items() if baseline().get(m))
+    n_disp = 0
+    for m, t in trees.items():
+        known = baseline().get(m)
+        if known:
+            same = {id(fd) for q, fd in _qualnames(t).items() if known.get(q) and known[q] == body_hash(fd)}
+            n_disp += expand_table_dispatch(t, same)
+    LAST_RUN["dispatch_expanded"] = n_disp
     inliners: T.Dict[str, Inliner] = {}
     for m, tree in trees.items():
         known = dict(baseline().get(m, {}))
